@@ -2,4 +2,14 @@ module hcverif
 
 go 1.23
 
+require (
+	github.com/brutella/hc v0.0.0
+	golang.org/x/tools v0.29.0
+)
+
+require (
+	golang.org/x/mod v0.22.0 // indirect
+	golang.org/x/sync v0.10.0 // indirect
+)
+
 replace github.com/brutella/hc => /repo
